@@ -49,6 +49,10 @@ static struct sigaction sig_before;
 static const char *K(const char *what) { snprintf(keybuf, sizeof keybuf, "C11/%s%s/%s", bk_name[BK], SIGFD ? "+signalfd" : "", what); return keybuf; }
 #define FAIL bk_cfail
 static void user_handler(int s) { (void)s; }
+/* callbacks of one iteration are logged as a sorted set: the order of callbacks of
+ * different fds within an iteration is unconstrained (and a rebuilt epoll set
+ * reports in a different order) */
+static char itok[16][16]; static int nitok;
 static void LOG(const char *fmt, ...) __attribute__((format(printf, 1, 2)));
 static void LOG(const char *fmt, ...)
 {
@@ -58,17 +62,25 @@ static void LOG(const char *fmt, ...)
 	if (n > 0 && loglen + n < (int)sizeof logbuf) loglen += n;
 }
 
+static void flush_tokens(void)
+{
+	qsort(itok, nitok, sizeof itok[0], (int (*)(const void *, const void *))strcmp);
+	for (int i = 0; i < nitok; i++) LOG("%s ", itok[i]);
+	nitok = 0;
+}
+
 /* ---- registration oracle (all backends) ------------------------------------ */
 static void check_registration(int kind, void *a, long n)
 {
 	static const int io[] = { R0, R1, W0, EX, RF };
 	const char *who = bk_in_child ? "child" : (forked ? "parent-after-fork" : "parent");
+	struct bk_epreg r[32]; int c = 0;
 	MC_COUNT("c11_registration_checks");
+	if (kind == 'e') c = bk_epoll_registrations(*(int *)a, r, 32);
 	for (unsigned k = 0; k < sizeof io / sizeof *io; k++) {
 		int e = io[k], fd = efd[e], have = -1, het = 0;
 		short want = added[e] ? (eflags[e] & (EV_READ | EV_WRITE)) : 0; int wet = added[e] && (eflags[e] & EV_ET);
 		if (kind == 'e') {
-			struct bk_epreg r[32]; int c = bk_epoll_registrations(*(int *)a, r, 32);
 			for (int i = 0; i < c; i++) if (r[i].fd == fd) { have = (r[i].events & EPOLLIN ? EV_READ : 0) | (r[i].events & EPOLLOUT ? EV_WRITE : 0); het = !!(r[i].events & EPOLLET); }
 		} else if (kind == 'p') {
 			struct pollfd *p = a;
@@ -95,7 +107,7 @@ static void cb(evutil_socket_t fd, short what, void *arg)
 	n_cb_total++;
 	if (fd != efd[e]) FAIL(K("callback-fd"), "%s called with fd %d", ename[e], (int)fd);
 	if (e == EX) { MC_COUNT("c11_et_callbacks"); }         /* not part of the differential log */
-	else LOG("%s:%x ", ename[e], (unsigned)what);
+	else if (nitok < 16) snprintf(itok[nitok++], sizeof itok[0], "%s:%x", ename[e], (unsigned)what);
 	if (!added[e] && !(e == R1)) FAIL(K("callback-not-added"), "%s ran but is not added", ename[e]);
 	if (fork_armed) { fork_armed = 0; do_fork_in_callback(e); }
 }
@@ -104,6 +116,7 @@ static void one_loop(void)
 {
 	int r = event_base_loop(base, EVLOOP_ONCE | EVLOOP_NONBLOCK);
 	if (r < 0) FAIL(K("loop-failed"), "event_base_loop returned %d (%s)", r, bk_last_warning);
+	flush_tokens();
 	LOG("/ ");
 }
 static void xadd(int e)
@@ -213,13 +226,16 @@ static void do_fork_in_callback(int self)
 {
 	if (fork_mode == 2)
 		for (int e = 0; e < NPRE; e++) if (e != self && added[e]) { xdel(e); LOG("(del %s) ", ename[e]); break; }
+	flush_tokens();
 	LOG("FORK-in-%s ", ename[self]);
 	fork_here();
 }
+static void close_fds(void);
 static void child_finish(void) __attribute__((noreturn));
 static void child_finish(void)
 {
 	teardown();
+	close_fds();
 	/* fd table: baseline + the report pipe */
 	if (mcx_fd_signature() != fd0 + mc_hash_u64(0x1234, (uint64_t)bk_child_pipe)) FAIL(K("child-fd-leak"), "child's fd table differs from baseline after teardown");
 	logbuf[loglen] = 0;
@@ -245,7 +261,7 @@ static void body(void)
 	BK = mc_param("backend", 0); SIGFD = mc_param("sigfd", 0); IS_EPOLL = BK == BK_EPOLL || BK == BK_EPOLL_CL;
 	vclock_reset(); vclock_prewait_hook = prewait; vclock_idle_hook = NULL;
 	bk_warnings = 0; bk_last_warning[0] = 0; bk_in_child = 0;
-	memset(added, 0, sizeof added); loglen = 0; fork_armed = forked = n_cb_total = rf_open = 0; child_log[0] = 0;
+	memset(added, 0, sizeof added); loglen = 0; nitok = 0; fork_armed = forked = n_cb_total = rf_open = 0; child_log[0] = 0;
 	sigaction(SIGUSR1, &sa_user, NULL);
 	base = bk_new_base(BK, SIGFD);
 	if (!base) return;
